@@ -277,6 +277,18 @@ def handle_url(f, backend):
         if u is None or v is None:
             return "!dead"
         return enc_bool(u == v) + enc_bool(u < v) + enc_bool(u <= v) + enc_bool(u > v) + enc_bool(u >= v)
+    if op == "rt":
+        u = get(f[2])
+        if u is None:
+            _state["urls"].append(None)
+            return "!dead"
+        return push(lambda: URL(str(u)))
+    if op == "hr":
+        u = get(f[2])
+        if u is None:
+            _state["urls"].append(None)
+            return "!dead"
+        return push(lambda: URL(u.human_repr()))
     if op == "pkl":
         u = get(f[1])
         if u is None:
